@@ -738,6 +738,11 @@ class Interp:
         v = self.ev(st.value, frame)
         for t in st.targets:
             self.assign(t, v, frame, st)
+        w = getattr(self, 'watch', None)
+        if w and id(st) in w:
+            # a rule asked to see what this statement binds, in whichever frame (helper) it is executed
+            names = [x.id for t in st.targets for x in ast.walk(t) if isinstance(x, ast.Name)]
+            self.emit('watched', node=st, env={nm: frame.env.get(nm) for nm in names})
 
     def st_AnnAssign(self, st, frame):
         if st.value is not None:
